@@ -398,6 +398,83 @@ def run_missing(ctx, known):
         pos += len(item["reqs"])
 
 
+# ------------------------------------------------------------------------------------------ stream direct (exhaustive)
+
+def direct_instances():
+    """EXHAUSTIVE small inputs for the real `find_missing_edges` / `find_connecting_edges`, called directly:
+    (1) two residues of two atoms, joined in the residue graph: every molecule edge set over the six atom pairs x
+        every choice of stored fragment edges (also fragments that are NOT subgraphs of the molecule: there the
+        code is only compared with its model, the theorem's hypothesis fails);
+    (2) three residues of 2, 1, 1 atoms: every residue graph on them x every molecule edge set, the stored fragment
+        following the molecule."""
+    import itertools
+    pairs = [list(p) for p in itertools.combinations(range(4), 2)]
+    out = []
+    for mask in range(1 << len(pairs)):
+        medges = [p for i, p in enumerate(pairs) if mask >> i & 1]
+        for fa in ([], [[0, 1]]):
+            for fb in ([], [[2, 3]]):
+                out.append(dict(nodes=[[0, 1, "RA", [0, 1], fa], [1, 2, "RB", [2, 3], fb]], redges=[[0, 1]], medges=medges))
+        frag = [[0, 1]] if [0, 1] in medges else []
+        for rmask in range(8):
+            redges = [e for i, e in enumerate([[0, 1], [1, 2], [0, 2]]) if rmask >> i & 1]
+            out.append(dict(nodes=[[0, 1, "RA", [0, 1], frag], [1, 2, "RB", [2], []], [2, 3, "RC", [3], []]],
+                            redges=redges, medges=medges))
+    return out
+
+
+def one_direct_case(inst):
+    import networkx as nx
+    from vermouth.molecule import Molecule
+    from polyply.src.graph_utils import find_missing_edges, find_connecting_edges
+    mol = Molecule()
+    res = nx.Graph()
+    for key, resid, resname, frag, fedges in inst["nodes"]:
+        graph = nx.Graph()
+        graph.add_nodes_from(frag)
+        graph.add_edges_from(fedges)
+        for atom in frag:
+            mol.add_node(atom, resid=resid, resname=resname, atomname="A%d" % atom)
+        res.add_node(key, graph=graph, resid=resid, resname=resname)
+    mol.add_edges_from(inst["medges"])
+    res.add_edges_from(inst["redges"])
+    redges = [[int(u), int(v)] for u, v in res.edges]            # order and orientation as networkx reports them
+    missing = [[m["resA"], int(m["idxA"]), m["resB"], int(m["idxB"])] for m in find_missing_edges(res, mol)]
+    connecting = [sorted(sorted([int(a), int(b)]) for a, b in find_connecting_edges(res, mol, (u, v))) for u, v in redges]
+    mset = {frozenset(e) for e in inst["medges"]}
+    hyp = all(frozenset(e) in mset for n in inst["nodes"] for e in n[4])
+    return dict(inst=inst, missing=missing, connecting=connecting, hyp=hyp,
+                req=dict(op="missing", nodes=inst["nodes"], redges=redges, medges=inst["medges"]))
+
+
+def judge_direct(ctx, item, ans):
+    replay = dict(stream="direct", inst=item["inst"])
+    ctx.correspond("findMissingEdges-direct", item["missing"], ans["missing"], replay)
+    ctx.correspond("findConnectingEdges-direct", item["connecting"],
+                   [sorted(sorted(p) for p in edges) for edges in ans["connecting"]], replay)
+    if item["hyp"]:
+        # hypotheses of C10_missing_eq_spec hold: the property itself (reported iff not joined)
+        got = {tuple(m) for m in item["missing"]}
+        want = {tuple(m) for m in ans["spec"]}
+        for rec in sorted(got - want):
+            ctx.oracle_fail("both", "direct call: residues %s %s and %s %s are joined by an atom-level edge and yet reported "
+                                    "missing | %s" % (rec[1], rec[0], rec[3], rec[2], json.dumps(item["inst"])), replay)
+        for rec in sorted(want - got):
+            ctx.oracle_fail("neither", "direct call: residues %s %s and %s %s are connected in the residue graph, no atom-level "
+                                       "edge joins them and find_missing_edges does not report them | %s"
+                            % (rec[1], rec[0], rec[3], rec[2], json.dumps(item["inst"])), replay)
+
+
+def run_direct(ctx):
+    items = [one_direct_case(inst) for inst in direct_instances()]
+    answers = ctx.driver.ask([item["req"] for item in items])
+    for item, ans in zip(items, answers):
+        judge_direct(ctx, item, ans)
+    ctx.tally(direct_instances="exhaustive: %d (2 residues x 2 atoms: 64 edge sets x 4 fragment choices; "
+                               "3 residues: 64 edge sets x 8 residue graphs)" % len(items),
+              direct_with_hypotheses=sum(1 for item in items if item["hyp"]))
+
+
 # ------------------------------------------------------------------------------------------ stream gate
 
 def gen_top(rng):
@@ -595,6 +672,7 @@ def run(ctx):
                                 "two residues) evaluated by the Lean driver on the real output molecule, compared with the WARNING "
                                 "records of gen_params; C10M.specRaises (atom-graph connectivity) vs the real _check_molecules")
     known = known_shapes()
+    run_direct(ctx)
     run_missing(ctx, known)
     run_gate(ctx, known)
 
@@ -611,6 +689,9 @@ def replay(ctx, data):
                 judge_missing(ctx, got, answers[0], answers[1], known)
                 if got["history"] is not None:
                     judge_history(ctx, got, answers[2], answers[3], known)
+        elif item.get("stream") == "direct":
+            got = one_direct_case(item["inst"])
+            judge_direct(ctx, got, ctx.driver.ask([got["req"]])[0])
         elif item.get("stream") == "gate":
             got = one_gate_case(ctx, item["top"], full=True)
             if got is not None:
